@@ -138,9 +138,10 @@ Ante(m, g, ev) ==
                                             /\ (o.op = "approve" \/ ApprovedG(g, o.id, ev.now) # p)
     [] m = "C11_expiry"         -> TRUE
 
-Cons(m, g, ev) ==
+\* g2 = GNext(g, ev), handed in so that it is computed once per event
+ConsX(m, g, g2, ev) ==
   LET o == ev.op  auth == o.auth  now == ev.now  obs == ev.obs
-      own == OwnerG(g, o.id)  p == Principal(o)  g2 == GNext(g, ev) IN
+      own == OwnerG(g, o.id)  p == Principal(o) IN
   CASE m = "C10_owner"   -> \A r \in obs.owners : r.o = OwnerG(g2, r.id)
     [] m = "C10_balance" -> \A a \in DOMAIN obs.bal : obs.bal[a] = Count(g2, a)
     [] m = "C10_enum"    -> EnumOk(g2, obs)
@@ -171,9 +172,12 @@ Cons(m, g, ev) ==
          /\ \A a \in DOMAIN obs.opall : \A b \in DOMAIN obs.opall[a] :
                obs.opall[a][b] => OperG(g2, a, b, now)
 
+Cons(m, g, ev) == ConsX(m, g, GNext(g, ev), ev)
+
 Holds(m, g, ev) == Ante(m, g, ev) => Cons(m, g, ev)
 
 Key(m, g, ev) == "other"
 
-Failing(g, ev) == {m \in Monitors : ~Holds(m, g, ev)}
+FailingX(g, g2, ev) == {m \in Monitors : Ante(m, g, ev) /\ ~ConsX(m, g, g2, ev)}
+Failing(g, ev) == FailingX(g, GNext(g, ev), ev)
 =============================================================================
